@@ -385,6 +385,28 @@ Proof.
 Qed.
 Print Assumptions C05_end_to_end.
 
+(* the uninit returning form as converter, on two records: u (plain, allow_uninit) is left out by the conversion and
+   written by the converter, the removed a is handed back to it (nothing destroyed) *)
+Definition exw_ds : defs := [mkDatum 0 1 24 8 false 0; mkDatum 1 2 8 8 false 24; mkDatum 2 1 24 8 false 0; mkDatum 3 2 8 8 true 32].
+Example C05_vec_in_place_forms_nonvacuous :
+  match op_new exw_ds exv_ti rt_fixed 8 40 0 [0; 1]%nat (fun i => (100 + i)%nat),
+        op_new exw_ds exv_ti rt_fixed 8 40 0 [0; 1]%nat (fun i => (200 + i)%nat) with
+  | Ok (ORecord r1, _), Ok (ORecord r2, _) =>
+      match VecConv.run buf buf unit fault (nat * list nat * list nat)
+              (VecRecords.rconvg exw_ds exv_ti rt_fixed 8 40 [2; 1; 3]%nat [0%nat] [2; 3]%nat [1%nat] 1 0 true true
+                 (fun k _ => (500 + k)%nat) (fun k _ => (70 + k)%nat))
+              40 8 40 8 VecConv.flags_fixed [r1; r2] (0%nat, [], []) with
+      | (VecConv.Done outs st, calls) =>
+          Some (st, length calls,
+                map (fun o => (op_get exw_ds exv_ti rt_fixed o 2 false, op_get exw_ds exv_ti rt_fixed o 1 false,
+                               op_get exw_ds exv_ti rt_fixed o 3 true)) outs)
+      | _ => None
+      end
+  | _, _ => None
+  end = Some ((2%nat, [], [100; 200]%nat), 2%nat,
+              [(Ok (Some 500%nat), Ok (Some 101%nat), Ok (Some 70%nat)); (Ok (Some 501%nat), Ok (Some 201%nat), Ok (Some 71%nat))]).
+Proof. vm_compute. reflexivity. Qed.
+
 (* three records, the second merged into the first output (its droppable field c overwritten with 77) and dropped: the
    converter destroyed a of #0 (conversion), then c of output #0 (overwritten) and a of #1 (dropped), then a of #2 *)
 Example C05_vec_in_place_merge_nonvacuous :
